@@ -49,13 +49,27 @@ Proof.
   apply (gen_getter_spec f g s (fields_wf_sound _ _ _ generated_fields_wf Hin) Hs Hg).
 Qed.
 
+(* boolean range check of the corpus nodes (uint16 counts) *)
+Definition node_okb (n : node_desc) : bool :=
+  (0 <=? nd_dwc n) && (nd_dwc n <? 65536) && (0 <=? nd_pc n) && (nd_pc n <? 65536).
+
+Lemma generated_nodes_ok : forallb (fun p => node_okb (fst p)) nodes = true.
+Proof. vm_compute. reflexivity. Qed.
+
 Theorem emitted_sizes : forall n ir, In (n, ir) nodes -> nd_isgroup n = false ->
   ni_new ir = Some (8 * nd_dwc n, nd_pc n) /\ ni_newroot ir = Some (8 * nd_dwc n, nd_pc n) /\
   ni_list ir = Some (8 * nd_dwc n, nd_pc n) /\ ni_typeid ir = Some (nd_id n).
 Proof.
   intros n ir Hin Hg. pose proof (nodes_match_sound _ _ _ generated_nodes_match Hin) as E. subst ir.
-  apply gen_sizes. assumption.
+  pose proof generated_nodes_ok as K. rewrite forallb_forall in K. specialize (K _ Hin). cbn [fst] in K.
+  unfold node_okb in K. rewrite !andb_true_iff, !Z.leb_le, !Z.ltb_lt in K.
+  destruct (gen_sizes n Hg) as (A & B & C & D & _); [lia|lia|]. auto.
 Qed.
+
+(* the corpus contains structs beyond the uint16 byte range (>= 8192 words) *)
+Example corpus_has_wide_structs :
+  existsb (fun p => (8192 <=? nd_dwc (fst p)) && negb (nd_isgroup (fst p))) nodes = true.
+Proof. vm_compute. reflexivity. Qed.
 
 Example corpus_nonempty : (100 <=? length fields)%nat = true /\ (20 <=? length nodes)%nat = true.
 Proof. vm_compute. auto. Qed.
